@@ -10,7 +10,7 @@ from props.C10 import _ConstCmp, len_of, reads
 import panics as P
 
 META = {
-    "explanation_more": "Also (round 4): the two purges of set_farthest_on_full keep an entry exactly when distance(self, key) <= the *new* bound, evaluated as a truth table with the bound's provenance (also through a shared helper or predicate closure).",
+    "explanation_more": "Also (round 4): the two purges of set_farthest_on_full keep an entry exactly when distance(self, key) <= the *new* bound, evaluated as a truth table with the bound's provenance (also through a shared helper or predicate closure). Also (round 5): every retain on the in-flight set inside the pruning pass keeps exactly the entries whose own deadline has not passed, and nothing but retain removes from on_going_fetches (C08.leave.expired.inflight, C08.leave.only-retain).",
     "explanation": "Decides (safety only): (1) entries enter on_going_fetches only through a VacantEntry of that map or through an insert cut "
                    "by !on_going_fetches.contains_key((key,type)); (2) batch scheduling inserts only under on_going_fetches.len() < "
                    "MAX_PARALLEL_FETCH, re-checked on every loop iteration, returns early on >=, and MAX_PARALLEL_FETCH == K_VALUE (20); (3) a "
